@@ -141,6 +141,40 @@ def translate_found_index(cls):
             "        OK (a, (if wrong then Some index else None), st1)\n    end.\n" % (rank_t, dup_cond, wrong))
 
 
+def translate_additional_args(cls):
+    f = next((n for n in cls.body if isinstance(n, ast.FunctionDef) and n.name == "additional_args"), None)
+    if f is None or f.decorator_list or [a.arg for a in f.args.args] != ["self"]:
+        raise Decline("additional_args")
+    body = [s for s in f.body if not (isinstance(s, ast.Expr) and isinstance(s.value, ast.Constant))]
+    if not (len(body) == 1 and isinstance(body[0], ast.For) and same(body[0].iter, "range(len(self._args))")
+            and isinstance(body[0].target, ast.Name) and not body[0].orelse):
+        raise Decline("loop of additional_args")
+    i = body[0].target.id
+    lb = [s for s in body[0].body if not (isinstance(s, ast.Expr) and isinstance(s.value, ast.Constant))]
+    if not (len(lb) == 1 and isinstance(lb[0], ast.If) and not lb[0].orelse and len(lb[0].body) == 1):
+        raise Decline("body of the loop of additional_args")
+    t = lb[0].test
+    if same(t, "%s not in self._index_to_order" % i):
+        cond = "negb (omem (ta_order (fst acc)) i)"
+    elif same(t, "%s in self._index_to_order" % i):
+        cond = "omem (ta_order (fst acc)) i"
+    else:
+        raise Decline("test of additional_args")
+    y = lb[0].body[0]
+    if not (isinstance(y, ast.Expr) and isinstance(y.value, ast.Yield) and same(y.value.value, "self.found_index(%s)" % i)):
+        raise Decline("yield of additional_args")
+    return ("  (* the generator is consumed to the end by its callers; the table it reads is the one found_index updates *)\n"
+            "  Definition additional_args (st : toargs T) : res (list (T * option Z)) :=\n"
+            "    match foldM (fun (acc : toargs T * list (T * option Z)) (i : Z) =>\n"
+            "                   if %s then\n"
+            "                     match found_index (fst acc) i with\n"
+            "                     | OK (a, ov, st') => OK (st', snd acc ++ [(a, ov)])\n"
+            "                     | Err e => Err e\n                     end\n"
+            "                   else OK acc)\n"
+            "                (map Z.of_nat (seq 0 (length (ta_args st)))) (st, []) with\n"
+            "    | OK acc => OK (snd acc)\n    | Err e => Err e\n    end.\n" % cond)
+
+
 def translate_setitem(cls):
     f = next((n for n in cls.body if isinstance(n, ast.FunctionDef) and n.name == "__setitem__"), None)
     if f is None or f.decorator_list or [a.arg for a in f.args.args] != ["self", "i", "arg"]:
@@ -229,12 +263,13 @@ def translate(tree):
         if ff[k] != ast.dump(ast.parse("field(default_factory=dict)", mode="eval").body):
             raise Decline("default of FromArgs.%s" % k)
     return ("Section Tables.\n  Context {T : Type} (keq : T -> T -> bool).\n"
-            + translate_found_index(classes["ToArgs"]) + translate_setitem(classes["FromArgs"]) + translate_add(classes["FromArgs"])
+            + translate_found_index(classes["ToArgs"]) + translate_additional_args(classes["ToArgs"])
+            + translate_setitem(classes["FromArgs"]) + translate_add(classes["FromArgs"])
             + "End Tables.\n")
 
 
 HEADER = ("(* generated by harness/translate_tables.py from /repo/code_data/_blocks.py on every run; do not edit *)\n"
-          "From PCD Require Import Base.PyBase Base.Cfg Model.Flags Model.Args Model.Data Model.LineTable Model.Blocks Model.TableOps.\n\n")
+          "From PCD Require Import Base.PyBase Base.PyImp Base.Cfg Model.Flags Model.Args Model.Data Model.LineTable Model.Blocks Model.TableOps.\n\n")
 
 
 def generate(repo, outpath, fallback_dir, write_fallback=False):
